@@ -1,7 +1,7 @@
 (* Line-oriented entry point of the executable model: run "cmd sexp" = answer line. *)
 From Coq Require Import String Ascii List Bool Arith NArith ZArith.
 From Wrap Require Import Base.Str Base.ListX Syntax.Ast Syntax.Sexp Syntax.Codec Syntax.Print Inst.Model Inst.Proj Pybind.Items Pybind.Gen Pybind.Render Matlab.Ids Matlab.Arity Matlab.Files Xml.Escape Xml.Doc Runtime.Mx Runtime.Gateway.
-From Wrap Require Parse.Peg Parse.Build Parse.Layout Parse.LayoutModule gen.Grammar.
+From Wrap Require Parse.Peg Parse.Build Parse.Layout Parse.LayoutModule Parse.RoundTripDec gen.Grammar.
 Import ListNotations.
 Open Scope string_scope.
 
@@ -381,6 +381,21 @@ Definition run_layout (x : sexp) : string :=
   | _ => "badshape"
   end.
 
+(* printdecls (decl...) -> ok "text" when the list is in the domain of the module round-trip theorem
+   (Parse/RoundTripDec.v: printed_decls_parse_back), outside otherwise *)
+Definition run_printdecls (x : sexp) : string :=
+  match x with
+  | SList ds =>
+    match sequence (map d_decl ds) with
+    | Some m => match RoundTripDec.print_decls m with
+                | Some text => "ok " ++ print (Atom text)
+                | None => "outside"
+                end
+    | None => "baddecode"
+    end
+  | _ => "badshape"
+  end.
+
 Definition run (line : string) : string :=
   let '(cmd, rest) := split_cmd line EmptyString in
   match read rest with
@@ -401,6 +416,7 @@ Definition run (line : string) : string :=
     else if String.eqb cmd "parse" then run_parse x
     else if String.eqb cmd "layout" then run_layout x
     else if String.eqb cmd "default" then run_default x
+    else if String.eqb cmd "printdecls" then run_printdecls x
     else if String.eqb cmd "echo" then print x
     else "badcmd"
   end.
